@@ -33,11 +33,20 @@ ASSUMPTIONS = [
 ]
 
 PROFILE = Profile()
-PROFILE_INFEASIBLE = Profile(name="infeasible_last", free_constraints=0.9, p_table_constraint=0.9,
-                             max_periods=2, p_filter=0.4)
+PROFILE_INFEASIBLE = Profile(name="infeasible_last", free_constraints=0.9, p_table_constraint=1.0,
+                             free_p_true=0.35, max_periods=2, p_filter=0.4, max_disc_choices=2,
+                             max_cont_states=1, max_cont_choices=1)
+
+
+PROFILE_DROP = Profile(name="drop_filter", p_filter=1.0, filter_modes=("drop",), p_period_filter=0.9,
+                       min_periods=2, max_cont_states=1, max_cont_choices=1)
 
 
 def strategy(tier):
+    drop = st.builds(
+        lambda spec: {"spec": spec.to_json(), "jit_off": False},
+        model_specs(PROFILE_DROP),
+    )
     base = st.builds(
         lambda spec, jit: {"spec": spec.to_json(), "jit_off": jit == 0},
         model_specs(PROFILE),
@@ -47,7 +56,7 @@ def strategy(tier):
         lambda spec: {"spec": spec.to_json(), "jit_off": False, "infeasible_ok": True},
         model_specs(PROFILE_INFEASIBLE),
     )
-    return st.one_of(base, base, base, base, base, inf)
+    return st.one_of(base, base, base, drop, drop, inf)
 
 
 TOL = 1e-9
@@ -193,11 +202,11 @@ def check(case):
         return Outcome(status="skip", reason=skip, digest=dg)
     if not case.get("infeasible_ok"):
         # outside the dedicated stream, non-finite values anywhere make the case unsupported
-        if not all(np.isfinite(v).all() for v in ref.V):
+        if not all(np.isfinite(ref.to_lcm_layout(v, t)).all() for t, v in enumerate(ref.V)):
             return Outcome(status="skip", reason="nonfinite_reference", digest=dg)
     nt, cl = nontrivial(spec, ref)
     classes = model_classes(spec, ref) + cl
-    if not np.isfinite(ref.V[-1]).all():
+    if not np.isfinite(ref.to_lcm_layout(ref.V[-1], spec.n_periods - 1)).all():
         classes.append("last_period_infeasible_state")
         nt = True
     sol = lcm_solve(spec, jit=True)
